@@ -75,17 +75,24 @@ def _verify(args):
     if repo not in sys.path[:1]:
         sys.path.insert(0, repo)
     from mpgameserver.auth import Auth
-    try:
-        r = Auth.verify_password(pw, h)
-        return "true" if r is True else "false" if r is False else "other:returned %r" % (r,)
-    except ValueError:
-        return "ValueError"
-    except TypeError:
-        return "TypeError"
-    except MemoryError:
-        return "other:MemoryError"
-    except Exception as e:
-        return "other:%s" % type(e).__name__
+    def once():
+        try:
+            r = Auth.verify_password(pw, h)
+            return "true" if r is True else "false" if r is False else "other:returned %r" % (r,)
+        except ValueError:
+            return "ValueError"
+        except TypeError:
+            return "TypeError"
+        except MemoryError:
+            return "other:MemoryError"
+        except Exception as e:
+            return "other:%s" % type(e).__name__
+    # the verdict is a function of (password, hash string): the same question asked again, in the same process, gets the same answer
+    first = once()
+    again = once()
+    if again != first:
+        return "other:answer changes when the same question is asked again (%s, then %s)" % (first, again)
+    return first
 
 
 def run(ctx):
